@@ -1,7 +1,8 @@
 (* C19 - property theorems.  Nothing but statements, `exact <lemma>` and Print Assumptions.
    Pixel elements are words (bit patterns as unsigned integers), get i r c j = pixel_array[i, r, c, j]. *)
 From Coq Require Import String ZArith List Bool QArith.
-From HD Require Import Base.Val C19_Model C19_Proofs.
+From Coq Require Import Permutation Sorted.
+From HD Require Import Base.Val C19_Model C19_Proofs C19_Proofs_Ext.
 Import ListNotations.
 Open Scope Z_scope.
 
@@ -194,3 +195,197 @@ Example C19_example :
   apply_mapping (MLut 1 [(1#4); (3#4); (5#4)]%Q) [3; 1] = Ok [(5#4); (1#4)]%Q.
 Proof. vm_compute. repeat split; reflexivity. Qed.
 Print Assumptions C19_example.
+
+(* ======================================================================== *)
+(* extension                                                                 *)
+(* ======================================================================== *)
+(* ---- bit-exact storage, byte level ------------------------------------------ *)
+(* byte t of element (plane i, row r, column c, mapping j) is byte number
+   (((i*M+j)*R+r)*C+c)*w + t of the pixel data element (little endian), and there are no
+   other bytes *)
+Theorem C19_pm_bytes_at : forall get N R C M w,
+  length (pm_bytes get N R C M w) =
+    (Z.to_nat N * (Z.to_nat M * (Z.to_nat R * Z.to_nat C)) * w)%nat /\
+  forall i j r c t, 0 <= i < N -> 0 <= j < M -> 0 <= r < R -> 0 <= c < C -> (t < w)%nat ->
+  nth_error (pm_bytes get N R C M w)
+            (Z.to_nat (((i * M + j) * R + r) * C + c) * w + t) =
+  Some ((get i r c j / 256 ^ Z.of_nat t) mod 256).
+Proof. exact pm_bytes_at. Qed.
+Print Assumptions C19_pm_bytes_at.
+
+(* ---- per-frame metadata: the dimension index values use every number 1..#distinct ------- *)
+(* (together with C19_pm_dimension_index: an order isomorphism ONTO 1..#distinct positions) *)
+Theorem C19_pm_dimension_index_onto : forall col v, 1 <= v <= Z.of_nat (length (dedup col)) ->
+  exists p, In p col /\ rank col p = v.
+Proof. exact rank_onto. Qed.
+Print Assumptions C19_pm_dimension_index_onto.
+
+(* ---- end to end: constructor accepted -> image interface returns the given pixels ------ *)
+(* for every accepted configuration with integer pixels and every array: reading all frames
+   (either numbering convention) returns exactly the planes in the order (plane, mapping);
+   frame i*m+j (+1 as a number) is pixel_array[i, :, :, j] element by element; and with the
+   real-world flag that frame gets the mapping selected among those of channel j (the shared
+   ones when there is one channel) applied to those values *)
+Theorem C19_pm_roundtrip : forall c get n r cc m w,
+  pm_validate c = Ok (n, r, cc, m, PixelData, w) ->
+  (forall i r c j, 0 <= get i r c j < 256 ^ Z.of_nat w) ->
+  0 < n -> 0 <= r -> 0 <= cc ->
+  let bytes := pm_bytes get n r cc m w in
+  (forall ai, get_stored_frames w r cc (n * m) bytes None ai = Ok (pm_frames get n r cc m)) /\
+  (forall i j, 0 <= i < n -> 0 <= j < m ->
+     get_stored_frame w r cc (n * m) bytes (i * m + j + 1) false = Ok (frame_words get r cc i j) /\
+     get_stored_frame w r cc (n * m) bytes (i * m + j) true = Ok (frame_words get r cc i j) /\
+     forall y x, 0 <= y < r -> 0 <= x < cc ->
+       nth_error (frame_words get r cc i j) (Z.to_nat (y * cc + x)) = Some (get i y x j)) /\
+  (forall maps sel i j (ai : bool), 0 <= i < n -> 0 <= j < m ->
+     get_frame_rw w r cc m (n * m) bytes maps sel (if ai then i * m + j else i * m + j + 1) ai =
+     bind (select_mapping (nth (Z.to_nat (if 1 <? m then j else 0)) maps []) sel)
+          (fun mp => apply_mapping mp (frame_words get r cc i j))).
+Proof. exact pm_roundtrip_e2e. Qed.
+Print Assumptions C19_pm_roundtrip.
+
+(* what acceptance fixes: at least one channel, and the element width of the attribute *)
+Theorem C19_pm_accept_width : forall c n r cc m a w, pm_validate c = Ok (n, r, cc, m, a, w) ->
+  0 < m /\ (a = PixelData -> w = 1%nat \/ w = 2%nat) /\
+  (a = FloatPixelData -> w = 4%nat) /\ (a = DoubleFloatPixelData -> w = 8%nat).
+Proof. exact pm_accept_facts. Qed.
+Print Assumptions C19_pm_accept_width.
+
+(* ---- selecting the mapping "attached to that frame" --------------------------------- *)
+(* by index (negative from the end) or by label (first match); anything else is IndexError *)
+Theorem C19_selector : forall l sel,
+  (forall m, select_mapping l sel = Ok m <-> sel_spec l sel m) /\
+  (select_mapping l sel = Err "IndexError" <-> forall m, ~ sel_spec l sel m) /\
+  (forall e, select_mapping l sel = Err e -> e = "IndexError"%string).
+Proof. exact selector_full. Qed.
+Print Assumptions C19_selector.
+
+(* one frame with the real-world flag: every outcome, with the exception class *)
+Theorem C19_read_real_world_total : forall w R C M n bytes maps sel f ai,
+  (forall vs, get_frame_rw w R C M n bytes maps sel f ai = Ok vs <->
+     exists k m, std_index n f ai = Ok k /\ select_mapping (frame_maps maps M k) sel = Ok m /\
+                 apply_mapping m (read_frame w R C bytes k) = Ok vs) /\
+  (forall e, get_frame_rw w R C M n bytes maps sel f ai = Err e <->
+     (e = "IndexError"%string /\
+      (std_index n f ai = Err "IndexError" \/
+       exists k, std_index n f ai = Ok k /\
+                 select_mapping (frame_maps maps M k) sel = Err "IndexError")) \/
+     (e = "ValueError"%string /\
+      exists k m, std_index n f ai = Ok k /\ select_mapping (frame_maps maps M k) sel = Ok m /\
+                  apply_mapping m (read_frame w R C bytes k) = Err "ValueError")).
+Proof. exact read_real_world_total. Qed.
+Print Assumptions C19_read_real_world_total.
+
+(* frame batches of stored values (None = all frames): every outcome *)
+Theorem C19_stored_batch : forall w R C n bytes fs ai,
+  (forall out, get_stored_frames w R C n bytes fs ai = Ok out <->
+     requested n fs ai <> [] /\
+     Forall2 (fun f fr => exists k, std_index n f ai = Ok k /\ fr = read_frame w R C bytes k)
+             (requested n fs ai) out) /\
+  (forall e, get_stored_frames w R C n bytes fs ai = Err e <->
+     (e = "ValueError"%string /\ requested n fs ai = []) \/
+     (e = "IndexError"%string /\
+      exists f, In f (requested n fs ai) /\ std_index n f ai = Err "IndexError")).
+Proof. exact stored_batch_total. Qed.
+Print Assumptions C19_stored_batch.
+
+(* ---- "on request": the three transform flags of get_frame(s) -------------------------- *)
+(* all 27 combinations against a declarative table *)
+Theorem C19_flags_table : forall rw md voi, resolve_flags rw md voi = flags_spec rw md voi.
+Proof. exact resolve_flags_table. Qed.
+Print Assumptions C19_flags_table.
+
+(* the real world mapping is applied exactly when requested (or left to the default while
+   nothing contradictory is demanded), and then get_frame is the real-world read above *)
+Theorem C19_real_world_on_request : forall rw md voi,
+  (resolve_flags rw md voi = Ok (TRealWorld false) <->
+   md <> Some true /\ voi <> Some true /\
+   (rw = Some true \/ (rw = None /\ (md = Some false -> voi = Some false)))) /\
+  (resolve_flags rw md voi = Ok (TRealWorld false) ->
+   forall w R C M n bytes maps sel c wd f ai,
+   get_frame_flags w R C M n bytes maps sel rw md voi c wd f ai =
+   get_frame_rw w R C M n bytes maps sel f ai).
+Proof. exact real_world_on_request. Qed.
+Print Assumptions C19_real_world_on_request.
+
+(* switched off (and no window demanded): the stored values themselves *)
+Theorem C19_stored_when_off : forall rw md voi,
+  (resolve_flags rw md voi = Ok TStored <->
+   voi = Some false /\ (rw = Some false \/ (rw = None /\ md = Some true))) /\
+  (resolve_flags rw md voi = Ok TStored ->
+   forall w R C M n bytes maps sel c wd f ai,
+   get_frame_flags w R C M n bytes maps sel rw md voi c wd f ai =
+   bind (get_stored_frame w R C n bytes f ai) (fun ws => Ok (map inject_Z ws))).
+Proof. exact stored_when_off. Qed.
+Print Assumptions C19_stored_when_off.
+
+(* contradictory flags: ValueError for every valid frame *)
+Theorem C19_flags_refused : forall rw md voi e, resolve_flags rw md voi = Err e ->
+  e = "ValueError"%string /\
+  forall w R C M n bytes maps sel c wd f ai k, std_index n f ai = Ok k ->
+  get_frame_flags w R C M n bytes maps sel rw md voi c wd f ai = Err e.
+Proof. exact flags_refused. Qed.
+Print Assumptions C19_flags_refused.
+
+Theorem C19_flags_batch_is_sequential : forall w R C M n bytes maps sel rw md voi c wd fs ai,
+  fs <> [] ->
+  get_frames_flags w R C M n bytes maps sel rw md voi c wd (Some fs) ai =
+  res_all (map (fun f => get_frame_flags w R C M n bytes maps sel rw md voi c wd f ai) fs).
+Proof. exact get_frames_flags_sequential. Qed.
+Print Assumptions C19_flags_batch_is_sequential.
+
+(* RealWorldValueMapping.apply called directly = the same application; a LUT refuses
+   non-integer arrays *)
+Theorem C19_rwvm_apply : forall int_array m ws,
+  rwvm_apply int_array m ws =
+  match m with
+  | MLut _ _ => if int_array then apply_mapping m ws else Err "ValueError"
+  | MLin _ _ _ _ => apply_mapping m ws
+  end.
+Proof. exact rwvm_apply_spec. Qed.
+Print Assumptions C19_rwvm_apply.
+
+(* ---- read path: volume ------------------------------------------------------------------ *)
+(* the volume of a stored single-channel map has one slice per plane, ordered by descending z,
+   and the slice at position p is exactly the plane that was given at p *)
+Theorem C19_volume_roundtrip : forall get N R C w pos sl,
+  (forall i r c j, 0 <= get i r c j < 256 ^ Z.of_nat w) -> 0 <= R -> 0 <= C -> 0 <= N ->
+  length pos = Z.to_nat N ->
+  pm_volume pos (map (read_frame w R C (pm_bytes get N R C 1 w)) (zrange N)) = Ok sl ->
+  StronglySorted desc sl /\ length sl = Z.to_nat N /\
+  forall p fr, In (p, fr) sl <->
+    exists i, 0 <= i < N /\ nth_error pos (Z.to_nat i) = Some p /\ fr = frame_words get R C i 0.
+Proof. exact pm_volume_roundtrip. Qed.
+Print Assumptions C19_volume_roundtrip.
+
+Theorem C19_volume_refused : forall pos frames,
+  (pm_volume pos frames = Err "RuntimeError" <-> ~ NoDup pos) /\
+  (forall e, pm_volume pos frames = Err e -> e = "RuntimeError"%string).
+Proof. exact volume_refused_full. Qed.
+Print Assumptions C19_volume_refused.
+
+(* ---- non-vacuity of the extension ----------------------------------------------------------- *)
+Example C19_example_ext :
+  let get := fun i r c j => nth (Z.to_nat (((i * 2 + j) * 1 + r) * 2 + c)) [7; 300; 2; 65535; 4; 5; 6; 1] 0 in
+  let cfg := {| c_nsrc := 2; c_uniform := true; c_multiframe := false; c_srcplanes := 2;
+                c_dtype := DU16; c_ts := Explicit; c_wwpos := true; c_shape := [2; 1; 2; 2];
+                c_maps := MNested [1; 2]; c_pp := None |} in
+  let bytes := pm_bytes get 2 1 2 2 2 in
+  let maps := [[("a"%string, MLin (1#2) 1 0 400)];
+               [("b"%string, MLut 0 [0; 1; (5#2)]%Q); ("c"%string, MLin 2 0 0 65535)]] in
+  pm_validate cfg = Ok (2, 1, 2, 2, PixelData, 2%nat) /\
+  get_stored_frames 2 1 2 4 bytes None false = Ok [[7; 300]; [2; 65535]; [4; 5]; [6; 1]] /\
+  get_stored_frames 2 1 2 4 bytes (Some []) false = Err "ValueError" /\
+  get_stored_frames 2 1 2 4 bytes (Some [1; 5]) false = Err "IndexError" /\
+  get_frame_flags 2 1 2 2 4 bytes maps (SIdx 0) None None (Some false) 1 2 1 false = Ok [(9#2); (302#2)]%Q /\
+  get_frame_flags 2 1 2 2 4 bytes maps (SIdx (-1)) (Some true) None None 1 2 2 false = Ok [4; 131070]%Q /\
+  get_frame_flags 2 1 2 2 4 bytes maps (SLabel "b") None None (Some false) 1 2 2 false = Err "ValueError" /\
+  get_frame_flags 2 1 2 2 4 bytes maps (SIdx 0) (Some false) None (Some false) 1 2 4 false = Ok [6; 1]%Q /\
+  get_frame_flags 2 1 2 2 4 bytes maps (SIdx 0) None (Some true) None 1 3 4 false = Ok [1; (3#4)]%Q /\
+  get_frame_flags 2 1 2 2 4 bytes maps (SIdx 0) None None (Some true) 1 2 1 false = Err "RuntimeError" /\
+  rwvm_apply false (MLut 0 [0; 1]%Q) [0; 1] = Err "ValueError" /\
+  pm_volume [[0; 0; 8]; [0; 0; 24]; [0; 0; 16]] [[1]; [2]; [3]] =
+    Ok [([0; 0; 24], [2]); ([0; 0; 16], [3]); ([0; 0; 8], [1])] /\
+  pm_volume [[0; 0; 8]; [0; 0; 8]] [[1]; [2]] = Err "RuntimeError".
+Proof. exact ext_example. Qed.
+Print Assumptions C19_example_ext.
